@@ -36,8 +36,18 @@ const (
 
 var c24PxStart = time.Now()
 
+// c24PxStall: a child that does not start a new work unit for this long is considered hung.
+const c24PxStall = 5 * time.Minute
+
 // c24PxCollect, if set, lets a child hand extra key/values to the parent.
 var c24PxCollect func() map[string]string
+
+// c24PxVariant, if set, maps a job's variant number to the harness the children must use.
+var c24PxVariant func(v int) *vx.Harness
+
+// c24PxSeedOps, if set, gives the operations a variant's New() has already applied; they are prepended
+// to the paths of that variant's violations so that every reported path starts from the empty state.
+var c24PxSeedOps func(v int) []vx.Op
 
 // c24PxCustom, if set, runs one unit of a "custom" job in a child (harness-specific enumeration).
 var c24PxCustom func(unit []int, expired func() bool) (evals int64, distinct []string, viols []c24PxCustomViol)
@@ -54,6 +64,7 @@ type c24PxJob struct {
 	Depth      int     `json:"depth"`
 	Units      [][]int `json:"units"`
 	DeadlineMs int64   `json:"deadline_unix_ms"`
+	Variant    int     `json:"variant"` // which harness variant (alphabet / initial state) the units refer to
 }
 
 type c24PxViol struct {
@@ -128,6 +139,9 @@ func c24PxChild(h *vx.Harness) bool {
 	}
 	if err := json.Unmarshal(b, &s.job); err != nil {
 		panic(err)
+	}
+	if c24PxVariant != nil {
+		s.h = c24PxVariant(s.job.Variant)
 	}
 	s.fps, s.outcomes = map[string]struct{}{}, map[string]struct{}{}
 	q, err := os.OpenFile(filepath.Join(dir, "next"), os.O_RDWR|os.O_CREATE, 0o666)
@@ -361,7 +375,41 @@ func c24PxSpawn(c *vx.Check, h *vx.Harness, job c24PxJob, kv map[string]string) 
 			}
 			defer lf.Close()
 			cmd.Stdout, cmd.Stderr = lf, lf
-			errs[i] = cmd.Run()
+			if err := cmd.Start(); err != nil {
+				errs[i] = err
+				return
+			}
+			done := make(chan error, 1)
+			go func() { done <- cmd.Wait() }()
+			// Liveness guard: a child that has not started a new unit for a long time (an endless
+			// probe loop in a hash table, a blocked stream …) is asked for its goroutine dump and
+			// killed; the parent reports the unit it was working on.
+			prog := filepath.Join(dir, "progress-"+strconv.Itoa(i))
+			tick := time.NewTicker(5 * time.Second)
+			defer tick.Stop()
+			started := time.Now()
+			for {
+				select {
+				case errs[i] = <-done:
+					return
+				case <-tick.C:
+					last := started
+					if fi, err := os.Stat(prog); err == nil {
+						last = fi.ModTime()
+					}
+					if time.Since(last) > c24PxStall {
+						cmd.Process.Signal(syscall.SIGQUIT)
+						select {
+						case <-done:
+						case <-time.After(10 * time.Second):
+							cmd.Process.Kill()
+							<-done
+						}
+						errs[i] = fmt.Errorf("stalled: no new unit started for %v", c24PxStall)
+						return
+					}
+				}
+			}
 		}(i)
 	}
 	wg.Wait()
@@ -387,6 +435,10 @@ func c24PxSpawn(c *vx.Check, h *vx.Harness, job c24PxJob, kv map[string]string) 
 			}
 			first := "?"
 			for _, l := range strings.Split(string(lg), "\n") {
+				if strings.HasPrefix(l, "SIGQUIT") {
+					first = "stalled"
+					break
+				}
 				if strings.HasPrefix(l, "fatal error:") || strings.HasPrefix(l, "panic:") || strings.HasPrefix(l, "unexpected fault") || strings.Contains(l, "SIGSEGV") || strings.Contains(l, "SIGBUS") {
 					first = l
 					break
@@ -403,13 +455,17 @@ func c24PxSpawn(c *vx.Check, h *vx.Harness, job c24PxJob, kv map[string]string) 
 	return outs
 }
 
-func c24PxMergeViols(c *vx.Check, h *vx.Harness, outs []c24PxOut) {
+func c24PxMergeViols(c *vx.Check, h *vx.Harness, variant int, outs []c24PxOut) {
+	var seed []vx.Op
+	if c24PxSeedOps != nil {
+		seed = c24PxSeedOps(variant)
+	}
 	for _, o := range outs {
 		for _, v := range o.Custom {
 			c.Violate(v.Key, v.Case, v.Got, v.Want)
 		}
 		for _, v := range o.Viols {
-			ops := c24PxOps(h, v.Path)
+			ops := append(append([]vx.Op(nil), seed...), c24PxOps(h, v.Path)...)
 			key := ops[len(ops)-1].Name
 			if h.Key != nil {
 				key = h.Key(ops, v.Got, v.Want)
@@ -420,13 +476,13 @@ func c24PxMergeViols(c *vx.Check, h *vx.Harness, outs []c24PxOut) {
 }
 
 // c24PxRunDFS: phase A, all sequences of length depth, on child processes.
-func c24PxRunDFS(c *vx.Check, h *vx.Harness, depth int, kv map[string]string) (endStates int) {
+func c24PxRunDFS(c *vx.Check, h *vx.Harness, variant, depth int, kv map[string]string) (endStates int) {
 	A := len(h.Alphabet)
 	if depth < 1 || A == 0 {
 		return 0
 	}
-	c.Bound("phaseA_depth", depth)
-	c.Bound("alphabet_size", A)
+	c.Bound(fmt.Sprintf("phaseA_v%d_depth", variant), depth)
+	c.Bound(fmt.Sprintf("phaseA_v%d_alphabet_size", variant), A)
 	var units [][]int
 	if depth == 1 {
 		for i := 0; i < A; i++ {
@@ -439,7 +495,7 @@ func c24PxRunDFS(c *vx.Check, h *vx.Harness, depth int, kv map[string]string) (e
 			}
 		}
 	}
-	outs := c24PxSpawn(c, h, c24PxJob{Mode: "dfs", Depth: depth, Units: units}, kv)
+	outs := c24PxSpawn(c, h, c24PxJob{Mode: "dfs", Depth: depth, Units: units, Variant: variant}, kv)
 	var seqs int64
 	ends := map[string]struct{}{}
 	for _, o := range outs {
@@ -460,15 +516,15 @@ func c24PxRunDFS(c *vx.Check, h *vx.Harness, depth int, kv map[string]string) (e
 		}
 	}
 	c.AddEval(seqs)
-	c.Extra("phaseA_sequences", seqs)
-	c.Extra("phaseA_distinct_end_states", len(ends))
+	c.Extra(fmt.Sprintf("phaseA_v%d_sequences", variant), seqs)
+	c.Extra(fmt.Sprintf("phaseA_v%d_distinct_end_states", variant), len(ends))
 	c.Extra("worker_processes", vx.Workers())
-	c24PxMergeViols(c, h, outs)
+	c24PxMergeViols(c, h, variant, outs)
 	return len(ends)
 }
 
 // c24PxRunBFS: phase B, level-synchronous BFS over canonical states; transitions run on child processes.
-func c24PxRunBFS(c *vx.Check, h *vx.Harness, depth, maxStates int, kv map[string]string) {
+func c24PxRunBFS(c *vx.Check, h *vx.Harness, variant, depth, maxStates int, kv map[string]string) {
 	A := len(h.Alphabet)
 	c.Bound("phaseB_depth", depth)
 	c.Bound("phaseB_max_states", maxStates)
@@ -489,7 +545,7 @@ func c24PxRunBFS(c *vx.Check, h *vx.Harness, depth, maxStates int, kv map[string
 				units = append(units, append(append([]int(nil), p...), a))
 			}
 		}
-		outs := c24PxSpawn(c, h, c24PxJob{Mode: "paths", Units: units}, kv)
+		outs := c24PxSpawn(c, h, c24PxJob{Mode: "paths", Units: units, Variant: variant}, kv)
 		res := make([]*c24PxRes, len(units))
 		expired := false
 		for i := range outs {
@@ -500,7 +556,7 @@ func c24PxRunBFS(c *vx.Check, h *vx.Harness, depth, maxStates int, kv map[string
 			}
 			expired = expired || o.Expired
 		}
-		c24PxMergeViols(c, h, outs)
+		c24PxMergeViols(c, h, variant, outs)
 		var next [][]int
 		capped := false
 		for u, r := range res { // unit order = deterministic
@@ -555,6 +611,6 @@ func c24PxRunCustom(c *vx.Check, h *vx.Harness, units [][]int, kv map[string]str
 		}
 	}
 	c.AddEval(evals)
-	c24PxMergeViols(c, h, outs)
+	c24PxMergeViols(c, h, 0, outs)
 	return evals
 }
